@@ -289,7 +289,7 @@ def rw_for_ref_pattern(text):
     Rust's own semantics of iterating a slice by shared reference."""
     cnt = 0
     pat1 = re.compile(r"for\s+\(\s*(\w+)\s*,\s*&(\w+)\s*\)\s+in\s+([\w\.\[\]]+?)\.iter\(\)\.enumerate\(\)\s*\{")
-    pat2 = re.compile(r"for\s+&(\w+)\s+in\s+(&?[\w\.]+?)(?:\.iter\(\))?\s*\{")
+    pat2 = re.compile(r"for\s+&(\w+)\s+in\s+(&?[\w\.\[\]]+?)(?:\.iter\(\))?\s*\{")
     pat3 = re.compile(r"for\s+\(\s*(\w+)\s*,\s*(\w+)\s*\)\s+in\s+([\w\.\[\]]+?)\.iter\(\)\.enumerate\(\)\s*\{")
 
     def r3(m):
